@@ -229,9 +229,9 @@ PROPS = {
                         "strings.ToLower is modelled for ASCII, Latin-1, basic Greek and a few specials; other runes under (?i) are outside the model",
                         "C11_equiv assumes that Go's regexp engine matches only what the relation M of Spec/Rx.lean allows (M over-approximates: "
                         "classes and empty-width operators other than \\A/\\z are unconstrained; a FoldCase literal rune is the smallest of its fold orbit)"],
-        "open_statements": ["the exact-match fast path is proved equivalent to the regex for case-sensitive literals (C11_exact_fastpath, with the exact "
-                            "regex semantics of Proofs/Regex.lean); the case-insensitive variant ((?i)^literal$ vs strings.EqualFold, incl. the Kelvin sign "
-                            "and long s) is compared by the correspondence only"],
+        "open_statements": ["the exact-match fast path is proved equivalent to the regex for case-sensitive and case-insensitive literals over ASCII "
+                            "(C11_exact_fastpath, C11_exact_fastpath_ci, with the exact regex semantics of Proofs/Regex.lean); non-ASCII folding "
+                            "(Kelvin sign, long s: strings.EqualFold vs (?i)) is compared by the correspondence only"],
     },
     "C16": {
         "engines": [{"name": "parse", "quick": 12000, "thorough": 400000, "shards": 8}],
@@ -378,8 +378,7 @@ PROPS = {
             "io.CopyN delivers the reader's bytes in order in one or more BodyBuffer.Write calls (chunks < 32 KiB here)",
             "limits are within Validate's range (0 < memLimit <= limit <= 1 GiB)",
         ],
-        "open_statements": ["observations (returned interruption / n) are proved for the Reject slice path (C10_reject_iff); "
-                            "their independence of memLimit for the reader paths is tied by correspondence only"],
+        "open_statements": [],
     },
     "C15": {
         "engines": [
